@@ -131,19 +131,21 @@ def check_P_identity(case):
     rec = Recorder(alg.problem)
     alg.problem.evaluate = rec
     set_seed(case["seed"])
-    labels = [f"K={K}"]
+    labels = [f"K={K}", "L<=50" if case["L"] <= 50 else "L>50"]
     nt = False
+    sums = np.zeros((K, 2))
+    cnt = np.zeros(K)
+    seen = 0
     for step in range(case["L"] + 1):
         done = alg.run_one_step()
         if not rec.calls:
             continue
-        sums = np.zeros((K, 2))
-        cnt = np.zeros(K)
-        for x, y in rec.calls:
+        for x, y in rec.calls[seen:]:
             idx = ((x[:, None, :] - X[None, :, :]) ** 2).sum(-1).argmin(1)
             for i, r in zip(idx, y):
                 sums[i] += r
                 cnt[i] += 1
+        seen = len(rec.calls)
         if cnt.min() == 0:
             return Result.violation("C08:P:design-never-sampled", f"counts {cnt.tolist()}", labels)
         means = sums / cnt[:, None]
@@ -168,7 +170,7 @@ def st_pid(draw):
     K = draw(st.integers(2, 7))
     return {"theta": draw(st.sampled_from([30.0, 60.0, 90.0, 120.0, 150.0])), "d": draw(st.integers(1, 3)),
             "Y": [[draw(st.floats(-1, 1)), draw(st.floats(-1, 1))] for _ in range(K)], "noise_var": draw(gen.st_logfloat(1e-3, 1.0)),
-            "L": draw(st.integers(1, 6)), "seed": draw(st.integers(0, 2**31 - 1))}
+            "L": draw(st.one_of(st.integers(1, 6), st.integers(1, 6), st.integers(45, 130))), "seed": draw(st.integers(0, 2**31 - 1))}
 
 
 def check_monte_carlo(case):
@@ -243,7 +245,7 @@ COMPONENTS = [
     Component("default_L_closed_form", check_closed_form, strategy=st_closed, quick=600, thorough=20000,
               rule="two designs, displacement direction within the cone, gap eps(1+eta), eta 1e-3..0.5"),
     Component("P_is_pareto_of_means", check_P_identity, strategy=st_pid, quick=300, thorough=8000,
-              rule="2..7 designs, 1..6 rounds, recording proxy on problem.evaluate; compared after every step incl. one step after completion"),
+              rule="2..7 designs, 1..6 or 45..130 rounds (beyond the 50-round logging throttle), recording proxy on problem.evaluate; compared after every step incl. one step after completion"),
     Component("default_L_monte_carlo", check_monte_carlo, strategy=st_mc, quick=24, thorough=400,
               rule="3..6 designs, 60 real runs each with the default L (<= 4000), exact binomial tail at 1e-9"),
 ]
